@@ -116,9 +116,10 @@ def undoable(cap):
         n = p0.get(path)
         if removable(path) and n and n[1] == 'file' and path not in savedset:
             return 'moved'
-    for path in saved:
-        if (p.get(path) or [None, None])[1] == 'dir':
-            return 'nodir'
+    created = set(cap['createdDirs'])
+    for path, n in p.items():
+        if n[1] == 'dir' and (p0.get(path) or [None, None])[1] != 'dir' and path not in created:
+            return 'newdirs'
     return None
 
 
